@@ -181,6 +181,8 @@ class Exec:
         self.owned = []  # (array, pristine copy) of every caller-owned array handed to MyGrad (C12)
         self.last_seed = None
         self.last_seed_copy = None
+        self.seed_buf = None     # one caller-owned buffer whose slices are handed to backward() (statement field `seed_view`)
+        self.n_seed_views = 0
 
     # -- operands
     def opnd(self, o):
@@ -394,6 +396,15 @@ class Exec:
             if s.get("seed_order") == "F" and isinstance(seed, np.ndarray) and seed.ndim >= 2:
                 seed = np.asfortranarray(seed)
                 self.owned.append((seed, seed.copy()))
+            if s.get("seed_view") and isinstance(seed, np.ndarray) and seed.size <= 128 and self.n_seed_views < 8:
+                # every gradient the caller passes is a slice of one buffer the caller owns
+                if self.seed_buf is None:
+                    self.seed_buf = np.zeros(8 * 128)
+                off = 128 * self.n_seed_views
+                self.n_seed_views += 1
+                sv = self.seed_buf[off:off + seed.size].reshape(seed.shape)
+                sv[...] = seed
+                seed = sv
             self.last_seed = seed if isinstance(seed, np.ndarray) else None
             self.last_seed_copy = None if self.last_seed is None else self.last_seed.copy()
             self.H[s["h"]].backward(seed)
